@@ -206,7 +206,7 @@ def run(ctx):
                 'Gaussian-integer code words (forward and backward); distinct by program / instance')
     ctx.assumptions = ['TLC/SANY correct', 'tolerance 1e-9 (float64)', 'angles on the pi/2 grid (phases pi/4): index, ordering, accumulation and conjugation errors are angle independent']
     ctx.tolerances = {'float64': TOL}
-    ctx.not_covered = ['Pade matrix logarithm backward (transcendental - no exact model; its building block, the repeated PSD square root, IS covered)', 'PSD square root at singular matrices (not differentiable there)', 'PSD matrix square root backward (rational Sylvester family not built yet)',
+    ctx.not_covered = ['Pade matrix logarithm backward (transcendental - no exact model; its building block, the repeated PSD square root, IS covered)', 'PSD square root at singular matrices (not differentiable there)',
                        'losses of the variational models built on these operations', 'an error in a trigonometric derivative formula that vanishes on the angle grid']
     for cfg, num in [('3', 50 if quick else 500), ('2', 30 if quick else 300)]:
         r = tlc.run('qsim/Sim_Grad.tla', 'qsim/Sim_Grad_%s.cfg' % cfg, simulate=dict(num=num, file=True), depth=9, seed=ctx.seed + 5, workers=8, timeout=3000)
